@@ -147,6 +147,7 @@ type Machine struct {
 	chanID   int
 	cellID   int
 	logs     []string
+	prefers  []*Term
 	reached  map[string]bool
 	pathTag  map[string]interface{}
 
@@ -211,6 +212,7 @@ func (m *Machine) runPath(dec []int) {
 	m.pathInit = map[*ssa.Package]bool{}
 	m.steps = 0
 	m.logs = nil
+	m.prefers = nil
 	m.reached = map[string]bool{}
 	m.killed = false
 	m.abort = nil
@@ -443,7 +445,50 @@ func (m *Machine) branch(c *Term) bool {
 	if c.IsConst() {
 		return c.Bool()
 	}
-	return m.decide([]*Term{c, tNot(c)}) == 0
+	return m.decide2(c, tNot(c)) == 0
+}
+
+// decide2 is decide for a condition and its negation: the current path is feasible, so when
+// one side is unsat the other one needs no query.
+func (m *Machine) decide2(c, nc *Term) int {
+	if m.pos < len(m.dec) {
+		d := m.dec[m.pos]
+		m.pos++
+		if d == 0 {
+			m.assume(c)
+		} else {
+			m.assume(nc)
+		}
+		return d
+	}
+	r := m.sol.Check(c.S)
+	m.sol.Pop()
+	if r != "sat" && r != "unsat" {
+		m.inconclusive("solver unknown on branch feasibility @ " + m.where())
+	}
+	if r == "unsat" {
+		m.dec = append(m.dec, 1)
+		m.pos++
+		return 1
+	}
+	r2 := m.sol.Check(nc.S)
+	m.sol.Pop()
+	if r2 != "sat" && r2 != "unsat" {
+		m.inconclusive("solver unknown on branch feasibility @ " + m.where())
+	}
+	if r2 == "sat" {
+		nd := make([]int, len(m.dec)+1)
+		copy(nd, m.dec)
+		nd[len(m.dec)] = 1
+		m.ex.push(nd)
+		m.dec = append(m.dec, 0)
+		m.pos++
+		m.assume(c)
+		return 0
+	}
+	m.dec = append(m.dec, 0)
+	m.pos++
+	return 0
 }
 
 // pureFork is an n-way choice in which every alternative is feasible.
@@ -490,6 +535,20 @@ func (m *Machine) check(prop, label string, c *Term) {
 	if r == "sat" {
 		model, order := m.model()
 		m.sol.Pop()
+		// prefer a model that also satisfies the harness's replayability preferences
+		if len(m.prefers) > 0 {
+			ex := tNot(c).S
+			if c.IsConst() {
+				ex = "true"
+			}
+			for _, p := range m.prefers {
+				ex = "(and " + ex + " " + p.S + ")"
+			}
+			if r2 := m.sol.Check(ex); r2 == "sat" {
+				model, order = m.model()
+			}
+			m.sol.Pop()
+		}
 		m.recordViolation(Violation{Prop: prop, Label: label, Kind: "assert", Model: model, Order: order,
 			Path: append([]int{}, m.dec[:m.pos]...), Stack: m.stackStrings(), Logs: append([]string{}, m.logs...)})
 		m.ex.mu.Lock()
@@ -537,7 +596,7 @@ func (m *Machine) panicIf(c *Term, msg string) {
 		}
 		return
 	}
-	if m.decide([]*Term{tNot(c), c}) == 1 {
+	if m.decide2(tNot(c), c) == 1 {
 		m.goPanic(msg)
 	}
 }
